@@ -31,6 +31,7 @@ fn main() {
         ("record", "subs") => subs::record(&args),
         ("replay", "subs") => subs::replay(&args),
         ("record", "syncer") => syncer::record(&args),
+        ("replay", "syncer") => syncer::replay(&args),
         ("record", "syncer-aging") => syncer::record_aging(&args),
         ("record", "daser") => daser::record(&args),
         ("record", "pruner") => pruner::record(&args),
